@@ -220,7 +220,7 @@ Section Search.
     induction todo as [|x r IH]; simpl; intros m avail H.
     - eapply final_ok_iso; eauto.
     - rewrite try_each_existsb in H. apply existsb_exists in H. destruct H as [y [_ Hy]].
-      destruct (ok_partial g1 g2 ((x, y) :: m)); [|discriminate]. eapply IH; eauto.
+      destruct (ok_partial g1 g2 x ((x, y) :: m)); [|discriminate]. eapply IH; eauto.
   Qed.
 
   Variable f : N -> N.
@@ -237,9 +237,10 @@ Section Search.
     unfold app_m. destruct (lookup m x) as [y|] eqn:E; [|discriminate]. now apply Ha.
   Qed.
 
-  Lemma ok_partial_agree m : agree m -> ok_partial g1 g2 m = true.
+  Lemma ok_partial_agree x m : agree m -> ok_partial g1 g2 x m = true.
   Proof.
     intros Ha. unfold ok_partial. rewrite all_of_forallb. apply forallb_forall. intros t Ht.
+    destruct (memb N.eqb x (blanks_t t)); auto.
     destruct (assigned m t) eqn:E; auto.
     rewrite (assigned_agree m t Ha E). apply gmem_In. apply f_img. apply In_rename_g. eauto.
   Qed.
@@ -265,7 +266,7 @@ Section Search.
       rewrite try_each_existsb. apply existsb_exists. exists (f x). split; [apply Hav; auto|].
       assert (Hag' : agree ((x, f x) :: m)).
       { intros z y. simpl. destruct (N.eqb_spec z x); [intros [= <-]; now subst|apply Hag]. }
-      rewrite (ok_partial_agree _ Hag'). apply IH; auto.
+      rewrite (ok_partial_agree x _ Hag'). apply IH; auto.
       + intros z Hz. apply (srem_In N.eqb N.eqb_spec). split; [apply Hav; auto|].
         intros E. apply f_inj in E; auto. subst. tauto.
       + intros z Hz. destruct (Hcov z Hz) as [[E|H]|[y Hy]]; auto.
@@ -501,6 +502,17 @@ Lemma leak_refuted :
             /\ spec_ok c (model_obs c) = false.
 Proof.
   exists {| c_g1 := [(Blank 0, Blank 1, Blank 2)]; c_g2 := [(Blank 3, Blank 4, Blank 5)] |}%N.
+  split; [reflexivity|]. split; [apply iso_dec_correct; vm_compute; reflexivity|].
+  split; vm_compute; reflexivity.
+Qed.
+
+(* Finding FC14b: the recorded witness is a pair of isomorphic graphs on which
+   rdflib (and therefore the model, by table) answers false *)
+Lemma fc14b_refuted :
+  exists c, kf c = 2%N /\ iso (c_g1 c) (c_g2 c) /\ o_iso (model_obs c) = false
+            /\ spec_ok c (model_obs c) = false.
+Proof.
+  exists {| c_g1 := fc14b_g1; c_g2 := fc14b_g2 |}.
   split; [reflexivity|]. split; [apply iso_dec_correct; vm_compute; reflexivity|].
   split; vm_compute; reflexivity.
 Qed.
